@@ -52,10 +52,6 @@ def run(ck):
     pats = ['pmpp', 'ppmp'] if ck.tier != 'thorough' else ['pmpp', 'ppmp', 'mppp', 'pppm', 'pppp', 'pm', 'p']
     for test, uses_time, build in tests():
         for p in pats:
-            if len(p) < 2 and 'min_period' in build('list_none', 'dt64', p)[1]:
-                # one observation has no sampling interval: min_period / NaN cast to int is platform-defined in numpy (outside the model)
-                continue
-
             def run_one(dc, tc):
                 args, kw = build(dc, tc, p)
                 c = Case(test, args, kw, n=len(p), pat={}, meta={'class': f'{dc}/{tc}'},
@@ -211,6 +207,14 @@ def show_kw(v):
 
 def compare(ck, rule, test, carrier, cb, ob, cx, ox):
     key = f'{fn_key(cb)}:{carrier}'
+    # a container that the test writes into gives other flags the next time it is used, while a list / tuple / Series of the same values
+    # (which the test had to copy) does not: no store into a caller-owned array
+    muts = [e for e in ox.events if e['kind'] == 'mutation' and not str(e.get('owner', '')).startswith('module-state')]
+    if muts:
+        from ..repo import unparse
+        ck.violate(rule, f'{key}:input-array-modified',
+                   f'{cx.label}: the test writes into the caller\'s `{muts[0]["owner"]}` ({unparse(muts[0]["node"], 60) if muts[0].get("node") is not None else muts[0]["what"]}): '
+                   'the same array used again no longer holds the series, other carriers of the same values are unaffected')
     if ox.kind == 'raise' and ob.kind != 'raise':
         site = ''
         if ox.node is not None:
